@@ -1284,6 +1284,10 @@ func (tx *FnTx) enterLoop(li *loopInfo, pre *State) *State {
 		}
 		t := tx.define(ph, "")
 		tx.assumeTyped(t, ph.Type(), head)
+		if ph.Comment == "rangeindex" {
+			// the hidden index of a range loop starts at -1 and is only ever incremented (by construction of the SSA form)
+			tx.assume("(>= " + t.S + " (- 1))")
+		}
 	}
 	// 3. assume invariants
 	if li.spec != nil {
